@@ -84,6 +84,53 @@ Proof.
   apply all_paths_to_sound. pose proof repaired_check as C. rewrite forallb_forall in C. apply C. assumption.
 Qed.
 
+Lemma expect_constant : forall v s s', In s' (step v s) -> st_expect s' = st_expect s.
+Proof.
+  intros v s s' H. unfold step in H. destruct (exited s); [contradiction|].
+  repeat (apply in_app_or in H; destruct H as [H|H]).
+  - unfold env_steps in H. destruct (st_script s) as [|a t]; [contradiction|]. destruct a; destruct H as [<-|[]]; reflexivity.
+  - unfold main_steps in H.
+    destruct (st_main s); repeat (match type of H with
+      | In _ (if ?c then _ else _) => destruct c
+      | In _ (match ?x with _ => _ end) => destruct x
+      | In _ (_ ++ _) => apply in_app_or in H; destruct H as [H|H]
+      | In _ (_ :: _) => destruct H as [<-|H]
+      | In _ [] => contradiction
+      end; try reflexivity); try contradiction;
+      unfold invoke_shutdown_handlers; try (destruct (st_registered _)); reflexivity.
+  - unfold writer_steps in H. repeat (match type of H with
+      | In _ (if ?c then _ else _) => destruct c
+      | In _ (_ :: _) => destruct H as [<-|H]
+      | In _ [] => contradiction end; try reflexivity).
+  - unfold dbg_steps in H.
+    destruct (st_dbg s); repeat (match type of H with
+      | In _ (if ?c then _ else _) => destruct c
+      | In _ (match ?x with _ => _ end) => destruct x
+      | In _ (_ ++ _) => apply in_app_or in H; destruct H as [H|H]
+      | In _ (_ :: _) => destruct H as [<-|H]
+      | In _ [] => contradiction
+      end; try reflexivity); try contradiction.
+Qed.
+
+Lemma expect_reachable : forall v s s', reachable v s s' -> st_expect s' = st_expect s.
+Proof. induction 1; [reflexivity|]. rewrite (expect_constant _ _ _ H0). assumption. Qed.
+
+Lemma initial_expect : forall s0, In s0 all_initial -> st_expect s0 = spec_exit_code (st_script s0).
+Proof.
+  intros s0 H. unfold all_initial in H. apply in_flat_map in H as [sm [_ H]]. apply in_map_iff in H as [sc [<- _]]. reflexivity.
+Qed.
+
+Theorem no_hang_no_wrong_status : forall s0, In s0 all_initial -> forall s, reachable v_repaired s0 s ->
+  (step v_repaired s = [] -> st_main s = MExited (spec_exit_code (st_script s0))) /\
+  (forall n s', path v_repaired n s s' -> n < depth_bound).
+Proof.
+  intros s0 Hin s R. pose proof (exit_clean_repaired s0 Hin s R) as I. split.
+  - intro E. pose proof (inev_terminal _ _ _ _ I E) as C. unfold clean_exit in C.
+    destruct (st_main s); try discriminate. apply Nat.eqb_eq in C. subst.
+    rewrite (expect_reachable _ _ _ R), (initial_expect _ Hin). reflexivity.
+  - intros n s' P. eapply inev_bounds_paths; eassumption.
+Qed.
+
 (* ------------------------------------------------------------------ the pinned code: every run that should exit 0 panics *)
 Definition wants_zero : list state := filter (fun s => Nat.eqb (st_expect s) 0) all_initial.
 
@@ -104,22 +151,11 @@ Proof. exists (initial false MachNone [LspShutdown; LspExit]). split; [vm_comput
 (* only the unwrap replaced: every run that should exit 0 hangs (main blocked in IoThreads::join: a Sender is alive) *)
 Lemma take_only_check : forallb (all_paths_to v_take_only hung depth_bound) wants_zero = true.
 Proof. vm_compute. reflexivity. Qed.
-(* + the sender dropped first: still hangs (DebugServer::join while the thread is in accept(), or has gone back into it) *)
-Lemma take_drop_check : forallb (all_paths_to v_take_drop hung depth_bound) wants_zero = true.
-Proof. vm_compute. reflexivity. Qed.
+(* + the sender dropped first: in every scenario some run still fails -- it hangs in DebugServer::join while the thread
+   is in accept() or has gone back into it (flag set only in join), or the signalled session panics the debug thread *)
+Definition bad (v : variant) (s : state) : bool :=
+  negb (clean_exit s) && match step v s with [] => true | _ => false end.
 
-Theorem unwrap_fix_alone_hangs : forall s0, In s0 all_initial -> st_expect s0 = 0 ->
-  inev v_take_only hung depth_bound s0 /\ inev v_take_drop hung depth_bound s0.
-Proof.
-  intros s0 Hin E.
-  assert (W : In s0 wants_zero) by (unfold wants_zero; apply filter_In; split; [assumption | rewrite E; reflexivity]).
-  split; apply all_paths_to_sound.
-  - pose proof take_only_check as C. rewrite forallb_forall in C. apply C. assumption.
-  - pose proof take_drop_check as C. rewrite forallb_forall in C. apply C. assumption.
-Qed.
-
-(* + join wakes the thread, but the select's shutdown arm drops its SelectedOperation: with a debugger attached the
-   debug thread panics and DebugServer::join's expect() takes the process down with 101 *)
 Fixpoint some_path_to (v : variant) (goal : state -> bool) (fuel : nat) (s : state) : bool :=
   match fuel with
   | O => false
@@ -136,6 +172,27 @@ Proof.
     + eapply reach_step; [apply reach_refl | assumption].
     + eapply reach_step; [apply IHR; assumption | assumption].
 Qed.
+
+Lemma take_drop_check : forallb (some_path_to v_take_drop (bad v_take_drop) depth_bound) wants_zero = true.
+Proof. vm_compute. reflexivity. Qed.
+
+Theorem unwrap_fix_alone_hangs : forall s0, In s0 all_initial -> st_expect s0 = 0 ->
+  inev v_take_only hung depth_bound s0 /\
+  exists s', reachable v_take_drop s0 s' /\ step v_take_drop s' = [] /\ clean_exit s' = false.
+Proof.
+  intros s0 Hin E.
+  assert (W : In s0 wants_zero) by (unfold wants_zero; apply filter_In; split; [assumption | rewrite E; reflexivity]).
+  split.
+  - apply all_paths_to_sound. pose proof take_only_check as C. rewrite forallb_forall in C. apply C. assumption.
+  - pose proof take_drop_check as C. rewrite forallb_forall in C. specialize (C _ W).
+    destruct (some_path_to_sound _ _ _ _ C) as [s' [R B]]. exists s'. split; [assumption|].
+    unfold bad in B. apply andb_true_iff in B as [B1 B2]. split.
+    + destruct (step v_take_drop s'); [reflexivity | discriminate].
+    + apply negb_true_iff. assumption.
+Qed.
+
+(* + join wakes the thread, but the select's shutdown arm drops its SelectedOperation: with a debugger attached the
+   debug thread panics and DebugServer::join's expect() takes the process down with 101 *)
 Theorem select_arm_panics : exists s', reachable v_take_drop_wake (initial true MachNone [LspShutdown; LspExit]) s' /\ exits_with 101 s' = true.
 Proof. apply (some_path_to_sound _ _ depth_bound). vm_compute. reflexivity. Qed.
 
